@@ -147,7 +147,13 @@ def directed() -> Iterator[Tuple[str, G.Script]]:
         else:
             s.round([s.rd(1, 5000, b"", nbytes=nb)])
         yield f"len_{nb}", probe(s)
-    for mt in (-2 ** 31, -10001, -10000, -1, 9999, 10000, 10001, cd.ALL_MESSAGE_TYPES, I32MAX - 1):
+    # the largest payload the manager accepts (its whole 1 MiB buffer), delivered in full and forwarded
+    s = G.Script(); connect_n(s, 3, loggers=[3])
+    s.round([s.rd(2, cd.MT_SUBSCRIBE, G.p_i32(5000))])
+    s.round([s.rd(1, 5000, bytes((3 + 7 * i) % 256 for i in range(2 ** 20)))])
+    s.round([s.rd(1, 5000, b"next")])
+    yield "len_1048576_in_full", probe(s)
+    for mt in (-2 ** 31, -10001, -10000, -1, 0, 1, 9999, 10000, 10001, cd.ALL_MESSAGE_TYPES, I32MAX - 1):
         s = G.Script(); connect_n(s, 2)
         s.round([s.rd(2, cd.MT_SUBSCRIBE, G.p_i32(cd.MT_TIMING_MESSAGE))])
         s.round([s.rd(1, mt, b"abc")]); s.round(dt=1000); s.round(dt=1000)
@@ -189,6 +195,18 @@ def directed() -> Iterator[Tuple[str, G.Script]]:
         s.round([s.rd(3, cd.MT_SUBSCRIBE, G.p_i32(5000))], fail={1: "hdr"})
         s.round([s.rd(3, cd.MT_SUBSCRIBE, G.p_i32(5001))], fail={2: "pay"} if nlog == 2 else None)
         yield f"logger_dies_on_ack_{nlog}", probe(s)
+    # three loggers, two of them fail while an acknowledgement is copied to them: the FAILED_MESSAGE about the first reaches
+    # (and kills) the second inside the first one's handling, so the outer walk over the logger snapshot meets a logger
+    # that has already left and must go on to the third one (C19: the copy goes to every logger module)
+    for fm in ("hdr", "pay"):
+        for dead in ((1, 2), (2, 3), (1, 3)):
+            for watch in (cd.MT_FAILED_MESSAGE, cd.ALL_MESSAGE_TYPES):
+                s = G.Script(); connect_n(s, 5, loggers=[1, 2, 3])
+                for u in (1, 2, 3):
+                    s.round([s.rd(u, cd.MT_SUBSCRIBE, G.p_i32(watch))])
+                s.round([s.rd(4, cd.MT_SUBSCRIBE, G.p_i32(5000))], fail={d: fm for d in dead})
+                s.round([s.rd(5, cd.MT_SUBSCRIBE, G.p_i32(5001))])
+                yield f"loggers_{dead[0]}{dead[1]}_of_three_fail_{fm}_{watch}", probe(s)
     # sender of a control frame can not take its ACK
     s = G.Script(); connect_n(s, 3, loggers=[3])
     s.round([s.rd(2, cd.MT_SUBSCRIBE, G.p_i32(cd.MT_FAILED_MESSAGE))])
